@@ -182,9 +182,12 @@ def handleEval : Sx → Option Sx
       bundled := (ms.filter (·.2.1)).map (fun m => (m.1, m.2.2)),
       user := (ms.filter (fun m => !m.2.1)).map (fun m => (m.1, m.2.2)),
       effectful := ← eff.mapM decStr?,
-      knownNatives := ← known.mapM decStr? }
-    let _ := baseNames
-    let (s0, senv) := initialState secure modelledNatives
+      knownNatives := ← known.mapM decStr?,
+      baseNames := (← baseNames.mapM decStr?).filter (fun n => !modelledNatives.contains n && !["checkerlang_secure_mode", "MAXINT", "MININT", "NULL"].contains n),
+      bundledNames := ["base.ckl", "bitwise.ckl", "core.ckl", "date.ckl", "io.ckl", "legacy.ckl", "list.ckl", "math.ckl", "os.ckl",
+                       "predicate.ckl", "random.ckl", "set.ckl", "stat.ckl", "string.ckl", "sys.ckl", "type.ckl"] }
+    let realBase ← baseNames.mapM decStr?
+    let (s0, senv) := initialState secure (if realBase.isEmpty then modelledNatives else modelledNatives.filter realBase.contains)
     let step := fun (acc : State × List Sx) (p : Sx) =>
       let (s, outs) := acc
       match p with
